@@ -512,6 +512,18 @@ func (w *c15Walker) expr(e ast.Expr, exit bool) {
 			w.expr(x.Fun, exit)
 		}
 		callee := w.resolve(recvX, name)
+		if id, ok := recvX.(*ast.Ident); ok && callee == nil && id.Name == "xml" && w.fn.imps["xml"] {
+			// xml.Marshal(ws) / Unmarshal: the whole shared object is read
+			for _, a := range x.Args {
+				if cls := c15ExprClass(w.fn, a); cls == "Ws" {
+					for _, fld := range []string{"SheetData", "Cols", "MergeCells", "DataValidations", "Drawing"} {
+						w.emit("rd", "Ws."+fld, exit)
+					}
+				} else if cls == "Styles" {
+					w.emit("rd", "Styles.tables", exit)
+				}
+			}
+		}
 		cb := ""
 		for _, a := range x.Args {
 			if fl, ok := a.(*ast.FuncLit); ok && callee != nil {
@@ -625,6 +637,9 @@ func (w *c15Walker) resolve(recvX ast.Expr, name string) *c15Fn {
 // DISPIMG cells) but outside the modelled scope: calls to them are listed, not followed.
 var c15Stop = map[string]bool{"CalcCellValue": true, "calcCellValue": true, "getDispImages": true, "getImageCellRel": true}
 
+// methods of the iterators returned by the documented Rows / Cols: part of using them
+var c15IterMethods = []string{"Rows.Next", "Rows.Columns", "Rows.Close", "Cols.Next", "Cols.Rows"}
+
 var c15DocRe = regexp.MustCompile(`concurrency[- ]safe`)
 
 func init() {
@@ -735,7 +750,16 @@ func init() {
 		// 4. reachable from the documented functions
 		depth := map[string]int{}
 		queue := append([]string{}, documented...)
-		for _, d := range documented {
+		var iters []string
+		for _, m := range c15IterMethods {
+			if _, ok := c15All[m]; ok {
+				iters = append(iters, m)
+				queue = append(queue, m)
+			} else {
+				fail("iterator method %s", m)
+			}
+		}
+		for _, d := range queue {
 			depth[d] = 0
 		}
 		for len(queue) > 0 {
@@ -761,6 +785,14 @@ func init() {
 		out.WriteString("/-! functions whose doc comment says they are concurrency safe -/\n")
 		out.WriteString("def documented : List String := [")
 		for i, d := range documented {
+			if i > 0 {
+				out.WriteString(", ")
+			}
+			out.WriteString(leanStr(d))
+		}
+		out.WriteString("]\n\n")
+		out.WriteString("/-! methods of the iterators returned by Rows / Cols -/\ndef iterMethods : List String := [")
+		for i, d := range iters {
 			if i > 0 {
 				out.WriteString(", ")
 			}
